@@ -32,6 +32,7 @@ Reading of the property (round-two audit; clause → theorem):
 import DuneVerif.Proofs.C19Guard
 import DuneVerif.Proofs.C19Future
 import DuneVerif.Proofs.C19Move
+import DuneVerif.Proofs.C19Gen
 
 namespace DV.C19
 
@@ -638,5 +639,126 @@ theorem send_data_twice_undefined (initial incoming send : List Int) (h1 h2 h3 :
     exact ⟨n1, n2⟩
 
 example : runFut2 (MpiFut2.start [-777] [42] [7]) [.sendData, .call .valid, .sendData] = none := by decide
+
+/-! ## Round four — the model is what the source says today
+
+`Gen/C19.lean` is regenerated from `mpiguard.hh`, `mpifuture.hh`, `future.hh` by `tools/translators/tr_c19.py` on every
+run.  The theorems below are proved about the *generated* definitions: they say that the generated guard programs and
+the generated member bodies of the future classes (interpreted by `Interp`) are, for every state, the hand-written
+model all theorems above are about.  A change of the source that changes one of these bodies makes the theorem false
+(or leaves the translator's grammar), which `check.py` reports as a broken obligation and answers with a search for a
+failing input. -/
+
+/-- `finalize(bool)`, `reactivate()`, `~MPIGuard()` as read from mpiguard.hh are the model's programs — same
+contribution to the collective, same `active_` afterwards, MPIGuardError thrown in the same cases, for every guard
+state, every argument and every global sum — and the default argument of `finalize` is `true`. -/
+theorem gen_guard_is_model :
+    Gen.Guard.finalize = finalize ∧ Gen.Guard.reactivate = reactivate ∧
+    (∀ g, (Gen.Guard.destroy g).bind (fun r => Prog.ret r.2) = destroy g) ∧
+    Gen.Guard.finalizeDefaultArg = some true :=
+  ⟨funext fun g => funext fun s => gen_finalize g s, funext gen_reactivate, gen_destroy, rfl⟩
+
+example : runJoint 3 [Gen.Guard.finalize ⟨true⟩ false, Gen.Guard.reactivate ⟨true⟩, Gen.Guard.destroy ⟨true⟩] =
+    .done [(⟨false⟩, true), (⟨false⟩, true), (⟨false⟩, false)] := by decide
+
+/-- `finalize` on a guard that is NOT armed (a second `finalize` in a row, `MPIGuard(comm,false)` without `reactivate()`):
+it still takes part in the collective with its contribution — so it cannot make the others deadlock — and never throws,
+whatever the global sum is; the guard stays unarmed.  (Not a guarded section; the harness does not generate it — this
+is what the model, and through `gen_guard_is_model` the source, says about it.) -/
+theorem unarmed_finalize_never_throws (success : Bool) :
+    ∃ k, Gen.Guard.finalize { active := false } success = Prog.sum (if success then 0 else 1) k ∧
+      ∀ total, k total = Prog.ret ({ active := false }, false) := by
+  rw [gen_finalize]
+  exact ⟨_, rfl, fun total => by simp⟩
+
+example : runJoint 3 [Gen.Guard.finalize ⟨false⟩ false, Gen.Guard.finalize ⟨true⟩ true] =
+    .done [(⟨false⟩, false), (⟨false⟩, true)] := by decide
+
+/-- every constructor of `MPIGuard` initialises `active_` with its parameter `active`, whose default is `true`: the arms
+`n` (`MPIGuard guard(comm)` = armed) and `m` (`MPIGuard guard(comm,false)` = not armed) of the model. -/
+theorem gen_guard_ctor_arms :
+    (∀ c ∈ Gen.Guard.ctorActive, ∀ b, c b = b) ∧ (∀ d ∈ Gen.Guard.ctorDefault, d = some true) ∧
+    Gen.Guard.ctorActive.length = Gen.Guard.ctorDefault.length ∧ 4 ≤ Gen.Guard.ctorActive.length := by
+  refine ⟨?_, ?_, rfl, by decide⟩
+  · intro c hc b
+    simp only [Gen.Guard.ctorActive, List.mem_cons, List.not_mem_nil, or_false] at hc
+    rcases hc with h | h | h | h <;> (subst h; rfl)
+  · intro d hd
+    simp only [Gen.Guard.ctorDefault, List.mem_cons, List.not_mem_nil, or_false] at hd
+    rcases hd with h | h | h | h <;> exact h
+
+example : Gen.Guard.ctorActive.map (· false) = [false, false, false, false] := by decide
+
+/-- `valid`, `wait`, `ready`, `get`, `get_send_data` of `MPIFuture<R,S>` as read from mpifuture.hh, executed on the
+generated bodies of `impl::Buffer<T>::get`/`operator bool` (value payloads), of `impl::Buffer<T&>` (lvalue payloads) and
+of `impl::Buffer<void>` (`MPIFuture<void>`), answer and change every state exactly like the model's step functions;
+the buffers' `get` hands out the object and empties the buffer. -/
+theorem gen_future_is_model (f : MpiFut2) (fv : MpiVoid) (v : List Int) :
+    (∀ o, genStep2 f o = MpiFut2.step f o) ∧
+    genFutRef Gen.MpiFuture.valid f = MpiFut2.step f (.call .valid) ∧
+    genFutRef Gen.MpiFuture.wait f = MpiFut2.step f (.call .wait) ∧
+    genFutRef Gen.MpiFuture.ready f = MpiFut2.step f (.call .ready) ∧
+    genFutRef Gen.MpiFuture.get f = MpiFut2.step f (.call .get) ∧
+    genFutRef Gen.MpiFuture.getSendData f = MpiFut2.sendData f ∧
+    genVoid Gen.MpiFuture.valid fv = some (MpiVoid.step fv .valid) ∧
+    genVoid Gen.MpiFuture.wait fv = some (MpiVoid.step fv .wait) ∧
+    genVoid Gen.MpiFuture.ready fv = some (MpiVoid.step fv .ready) ∧
+    genVoid Gen.MpiFuture.get fv = some (MpiVoid.step fv .get) ∧
+    Interp.bufGet Gen.MpiFuture.bufferValueGet (some v) none = some (v, none) ∧
+    Interp.bufGet Gen.MpiFuture.bufferRefGet (some v) none = some (v, none) :=
+  ⟨genStep2_eq f, gen_futref_valid f, gen_futref_wait f, gen_futref_ready f, gen_futref_get f, gen_futref_send f,
+   (gen_void fv).1, (gen_void fv).2.1, (gen_void fv).2.2.1, (gen_void fv).2.2.2,
+   (gen_buffers v none false).1, (gen_buffers v none false).2.1⟩
+
+/-- every call history (any length, `get_send_data` included, completion at any point) executed by the generated
+member bodies gives the observations and the final state of the model — so every future theorem above holds for the
+code as read today. -/
+theorem gen_histories_are_model (f : MpiFut2) (h : List FOp2) : genRun2 f h = runFut2 f h := genRun2_eq f h
+
+example : genRun2 (MpiFut2.start [-777] [42] [7]) [.call .ready, .sendData, .call .get, .call .get, .call .valid] =
+    some ([.bool false, .data [7], .data [42], .errInvalid, .bool false],
+          { base := { valid := false, req := .null, buf := [42], incoming := [42] }, send := none }) := by decide
+
+/-- `operator=(MPIFuture&&)` as the list of swaps read from the source, and the move constructor as its member
+initialisers and swaps, are the model's `moveAssign` / `moveConstruct` (which `move_assign_transfers` and
+`move_construct_transfers` show to hand over request, result buffer and send object). -/
+theorem gen_moves_are_model (t s : MpiFut2) :
+    Interp.moveAssignBy Gen.MpiFuture.assignSwaps t s = MpiFut2.moveAssign t s ∧
+    Interp.moveConstructBy Gen.MpiFuture.ctorMoved Gen.MpiFuture.ctorNulled Gen.MpiFuture.ctorSwaps s =
+      MpiFut2.moveConstruct s :=
+  ⟨gen_move_assign t s, gen_move_construct s⟩
+
+example : Interp.moveAssignBy Gen.MpiFuture.assignSwaps (MpiFut2.start [1] [2] [3]) (MpiFut2.start [-777] [42] [7]) =
+    (MpiFut2.start [-777] [42] [7], MpiFut2.start [1] [2] [3]) := by decide
+
+/-- the members of `PseudoFuture<T>` and `PseudoFuture<void>` as read from future.hh are the model's step functions -/
+theorem gen_pseudo_is_model (f : PseudoFut) (fv : PseudoVoid) (o : FOp) (ho : o = .valid ∨ o = .wait ∨ o = .ready ∨ o = .get) :
+    (∃ body, body ∈ [Gen.PseudoT.valid, Gen.PseudoT.wait, Gen.PseudoT.ready, Gen.PseudoT.get] ∧
+       Interp.pseudoRun body f = some (PseudoFut.step f o)) ∧
+    (∃ body, body ∈ [Gen.PseudoV.valid, Gen.PseudoV.wait, Gen.PseudoV.ready, Gen.PseudoV.get] ∧
+       Interp.pseudoVoidRun body fv = some (PseudoVoid.step fv o)) := by
+  have a := gen_pseudo f
+  have b := gen_pseudo_void fv
+  rcases ho with h | h | h | h <;> subst h
+  · exact ⟨⟨_, by simp, a.1⟩, ⟨_, by simp, b.1⟩⟩
+  · exact ⟨⟨_, by simp, a.2.1⟩, ⟨_, by simp, b.2.1⟩⟩
+  · exact ⟨⟨_, by simp, a.2.2.1⟩, ⟨_, by simp, b.2.2.1⟩⟩
+  · exact ⟨⟨_, by simp, a.2.2.2⟩, ⟨_, by simp, b.2.2.2⟩⟩
+
+example : Interp.pseudoRun Gen.PseudoT.get (PseudoFut.start [5]) = some (.data [5], { valid := false, data := [5] }) := by
+  decide
+
+/-- `Dune::Future<T>` as read from future.hh — null test, then the virtual call into `FutureModel<F>`, which forwards to
+the future it holds — is `erasedStep` around ANY inner future: transparent when it holds one, InvalidFutureException
+(`valid()`: false) when null. -/
+theorem gen_erased_is_model {σ : Type} (inner : σ → FOp → FObs × σ) (s : Option σ) :
+    genErased inner Gen.Erased.valid s = some (erasedStep inner s .valid) ∧
+    genErased inner Gen.Erased.wait s = some (erasedStep inner s .wait) ∧
+    genErased inner Gen.Erased.ready s = some (erasedStep inner s .ready) ∧
+    genErased inner Gen.Erased.get s = some (erasedStep inner s .get) := gen_erased inner s
+
+example : genErased PseudoFut.step Gen.Erased.get (none : Option PseudoFut) = some (.errInvalid, none) := by decide
+example : genErased PseudoFut.step Gen.Erased.get (some (PseudoFut.start [5])) =
+    some (.data [5], some { valid := false, data := [5] }) := by decide
 
 end DV.C19
